@@ -147,40 +147,67 @@ Proof.
 Qed.
 
 (* ---------------------------------------------------------------- all histories *)
-Lemma h_run_cons o h s :
-  h_run (o :: h) s =
-  (fst (h_run h (fst (h_step o s))), snd (h_step o s) ++ snd (h_run h (fst (h_step o s)))).
+Lemma h_run_cons sup o h s :
+  h_run sup (o :: h) s =
+  (fst (h_run sup h (fst (h_step sup o s))), snd (h_step sup o s) ++ snd (h_run sup h (fst (h_step sup o s)))).
 Proof.
-  cbn [h_run]. destruct (h_step o s) as [s1 l1]. cbn [fst snd]. destruct (h_run h s1) as [s2 l2]. reflexivity.
+  cbn [h_run]. destruct (h_step sup o s) as [s1 l1]. cbn [fst snd]. destruct (h_run sup h s1) as [s2 l2]. reflexivity.
 Qed.
 
-Lemma h_run_ok h : forall s d on_msg, c_sim s d on_msg -> deliveries_valid h = true ->
-  c15_ok_from d on_msg (snd (h_run h s)) = true.
+(* when no handler raises, nothing is cut *)
+Lemma cut_no_raise raises : existsb (fun b => b) raises = false -> forall l, cut raises l = l.
 Proof.
-  induction h as [|o h IH]; intros s d on_msg S DV; [reflexivity|].
-  rewrite h_run_cons. cbn [snd]. destruct o as [r|topic dec inner].
+  induction raises as [|b r IH]; intros H l.
+  - destruct l; reflexivity.
+  - cbn [existsb] in H. apply orb_false_iff in H as [Hb Hr]. subst b.
+    destruct l as [|x l]; [reflexivity|]. cbn [cut]. rewrite (IH Hr l). reflexivity.
+Qed.
+
+(* suppress_exceptions, or handlers that do not raise: every delivery runs its whole snapshot *)
+Lemma h_run_ok sup h : forall s d on_msg, c_sim s d on_msg -> deliveries_valid h = true ->
+  sup = true \/ no_raise h = true ->
+  c15_ok_from d on_msg (snd (h_run sup h s)) = true.
+Proof.
+  induction h as [|o h IH]; intros s d on_msg S DV NR; [reflexivity|].
+  rewrite h_run_cons. cbn [snd]. destruct o as [r|topic dec inner raises].
   - cbn [h_step fst snd app]. rewrite c15_ok_from_reg.
-    apply IH; [apply reg_step_sim; exact S | exact DV].
+    apply IH; [apply reg_step_sim; exact S | exact DV | destruct NR as [NR|NR]; [left; exact NR | right; exact NR]].
   - cbn [deliveries_valid] in DV. apply andb_true_iff in DV as [DV1 DV2].
-    cbn [h_step fst snd app c15_ok_from]. rewrite (dispatch_ok s d on_msg topic dec S DV1). cbn [andb].
+    assert (Eran : (if sup then dispatch s dec topic else cut raises (dispatch s dec topic)) = dispatch s dec topic).
+    { destruct NR as [->|NR]; [reflexivity|]. destruct sup; [reflexivity|].
+      cbn [no_raise] in NR. apply andb_true_iff in NR as [NR _]. apply negb_true_iff in NR. apply cut_no_raise. exact NR. }
+    assert (NR' : sup = true \/ no_raise h = true).
+    { destruct NR as [NR|NR]; [left; exact NR|]. right. cbn [no_raise] in NR. apply andb_true_iff in NR as [_ NR]. exact NR. }
+    cbn [h_step fst snd app c15_ok_from]. rewrite Eran. rewrite (dispatch_ok s d on_msg topic dec S DV1). cbn [andb].
     destruct (regs_ok (concat (firstn (length (dispatch s dec topic)) inner)) s d on_msg S)
       as (d' & on_msg' & S' & H).
     rewrite H. apply IH; assumption.
 Qed.
 
-Lemma c15_all_histories h : deliveries_valid h = true -> c15_ok (h_log h) = true.
-Proof. intro DV. unfold c15_ok, h_log. apply h_run_ok; [apply c_sim_init | exact DV]. Qed.
+Lemma c15_all_histories sup h : deliveries_valid h = true -> sup = true \/ no_raise h = true ->
+  c15_ok (h_log sup h) = true.
+Proof. intros DV NR. unfold c15_ok, h_log. apply h_run_ok; [apply c_sim_init | exact DV | exact NR]. Qed.
 
 (* registration changes made inside the callbacks of a delivery do not alter what that delivery runs *)
-Lemma dispatch_snapshot s topic dec inner inner' :
-  hd (LDeliver [] false []) (snd (h_step (HDeliver topic dec inner) s)) =
-  hd (LDeliver [] false []) (snd (h_step (HDeliver topic dec inner') s)).
+Lemma dispatch_snapshot sup s topic dec inner inner' raises :
+  hd (LDeliver [] false []) (snd (h_step sup (HDeliver topic dec inner raises) s)) =
+  hd (LDeliver [] false []) (snd (h_step sup (HDeliver topic dec inner' raises) s)).
 Proof. reflexivity. Qed.
 
 (* Outside valid topic names: a PUBLISH whose topic carries a level "+" (forbidden by MQTT-3.3.2-2,
    never sent by a conforming broker, not rejected by the client) runs a matching callback twice. *)
 Lemma c15_wildcard_topic_double :
-  let h := [HReg (RAdd [97; 47; 43] 1); HDeliver [97; 47; 43] true []] in
-  h_log h = [LReg (RAdd [97; 47; 43] 1); LDeliver [97; 47; 43] true [HFiltered 1; HFiltered 1]]
-  /\ c15_ok (h_log h) = false.
+  let h := [HReg (RAdd [97; 47; 43] 1); HDeliver [97; 47; 43] true [] []] in
+  h_log true h = [LReg (RAdd [97; 47; 43] 1); LDeliver [97; 47; 43] true [HFiltered 1; HFiltered 1]]
+  /\ c15_ok (h_log true h) = false.
 Proof. split; reflexivity. Qed.
+
+(* Outside the property: without suppress_exceptions a handler that raises ends the dispatch - the exception
+   reaches the caller of loop_read() - and the remaining matching handlers do not run *)
+Lemma c15_propagating_exception_cuts_dispatch :
+  let h := [HReg (RAdd [97] 1); HReg (RAdd [43] 2); HDeliver [97] true [] [true]] in
+  h_log false h = [LReg (RAdd [97] 1); LReg (RAdd [43] 2); LDeliver [97] true [HFiltered 1]]
+  /\ c15_ok (h_log false h) = false
+  /\ h_log true h = [LReg (RAdd [97] 1); LReg (RAdd [43] 2); LDeliver [97] true [HFiltered 1; HFiltered 2]]
+  /\ c15_ok (h_log true h) = true.
+Proof. repeat split; reflexivity. Qed.
